@@ -125,6 +125,13 @@ func evalExecBlock(vm *r.VM, execBlock *syntax.ExecBlock, params []r.Element) (r
 	// different from evalPureStmtBlock, we still use the same scope, NO NEW SCOPE CREATED!
 	rtnValue, stmtBlockErr := evalStmtBlock(vm, execBlock.StmtBlock)
 
+	// 结束循环 / 继续循环 that no loop of this body has consumed: it must not
+	// travel on to a loop of the caller - it fails here, with the message the
+	// same statement gives at the top level of a program
+	if sig, ok := stmtBlockErr.(*zerr.Signal); ok && (sig.SigType == zerr.SigTypeBreak || sig.SigType == zerr.SigTypeContinue) {
+		stmtBlockErr = zerr.NewErrorSLOT(sig.Error())
+	}
+
 	if stmtBlockErr != nil {
 		return handleExceptionSignal(vm, blockModule, blockFrameDepth, execBlock.CatchBlock, stmtBlockErr)
 	}
